@@ -16,5 +16,5 @@ CONSTANTS
   Lifts = {0}
   RhoS = {0}
 SPECIFICATION Spec
-INVARIANTS AdditiveSumsToSecret RefusedIffUnqualified Progress SchnorrOut
-CHECK_DEADLOCK FALSE
+INVARIANTS AdditiveSumsToSecret RefusedIffUnqualified SchnorrOut
+CHECK_DEADLOCK TRUE
